@@ -287,7 +287,14 @@ struct SetKind
 		return false;
 	}
 	static void warm() {}
-	static bool shapeIs(const C&, int, const std::vector<int>&) { return true; }
+	static bool shapeIs(const C& m, int nb, const std::vector<int>& order)
+	{
+		if (m.a.length() - ASL_HMAP_SKIP != nb) return false;
+		size_t i = 0;
+		for (typename C::Enumerator e = m.all(); e; ++e, ++i)
+			if (i >= order.size() || KC::idOf(*e) != order[i]) return false;
+		return i == order.size();
+	}
 };
 
 #endif
